@@ -22,6 +22,7 @@ type Assume struct {
 	tag      string // definition that a discharged helper lemma may replace
 	groundAx bool   // ground instance of a heap axiom: only needed once something has been allocated
 	heapAx   bool   // heap well-formedness axiom: only needed once something has been allocated
+	frameAx  bool   // quantified allocation-frame axiom of a contract call: needed when a specification reads the heap under a quantifier
 	optAx    bool   // ground instance that is rarely needed and sometimes derails the solver: left out in the first attempt
 }
 
@@ -43,6 +44,8 @@ type Obligation struct {
 	CTI         *Obligation // lane loops: the failed invariant-step clause whose model gives a concrete lane input
 	absMul      bool // symbolic multiplications abstracted to an uninterpreted function
 	noOptAx     bool // ground map-value allocation instances left out as well
+	Reach       Term   // path condition the goal is stated under
+	splitOn     string // extra assertion: one disjunct of the path condition (path splitting)
 	noHeapAx    bool // quantified heap axioms left out (first attempt; sound weakening)
 	excludeTags map[string]bool
 	Helpers     []*Obligation // lemmas assumed (when discharged) while deciding this obligation
@@ -99,6 +102,9 @@ type Ctx struct {
 	refStruct     map[string]Term // named reference -> its structural (mkref ...) form
 	inQuant       int
 	needQuantHeap bool
+	quantLoads    [][]Term          // heap reads made while evaluating the body of each open quantifier (pattern candidates)
+	trigSeen      map[string]bool
+	boolDefs      map[string]string // define-fun name -> body, for Bool definitions (path conditions)
 }
 
 const birthBase = 1000000
@@ -107,7 +113,7 @@ const globalBase = 1000
 func NewCtx(w *World, intMode bool) *Ctx {
 	c := &Ctx{W: w, intMode: intMode, strLits: map[string]Term{}, memSort: map[string]string{},
 		memInit: map[string]Term{}, globals: map[*ssa.Global]Term{}, assumed: map[string]bool{},
-		ufDecl: map[string]bool{}, sites: map[string]int{}, depthCap: 8, epochCache: map[string]Term{}, defCache: map[string]string{}, baseArrays: map[string][]baseArr{}, refStruct: map[string]Term{}, storeOf: map[string]storeRec{}, frameRecs: map[string]frameRec{}, boolCache: map[string]bool{}, deadTags: map[string]bool{}, copyRecs: map[string]copyRec{}, mergeOf: map[string][]Term{}, oldRefs: map[string]bool{}, knownConst: map[string]string{}}
+		ufDecl: map[string]bool{}, sites: map[string]int{}, depthCap: 8, epochCache: map[string]Term{}, defCache: map[string]string{}, baseArrays: map[string][]baseArr{}, refStruct: map[string]Term{}, storeOf: map[string]storeRec{}, frameRecs: map[string]frameRec{}, boolCache: map[string]bool{}, boolDefs: map[string]string{}, trigSeen: map[string]bool{}, deadTags: map[string]bool{}, copyRecs: map[string]copyRec{}, mergeOf: map[string][]Term{}, oldRefs: map[string]bool{}, knownConst: map[string]string{}}
 	if intMode {
 		c.idxSort = SInt
 	} else {
@@ -160,7 +166,64 @@ func (c *Ctx) Def(prefix string, t Term) Term {
 		}
 	}
 	c.decls = append(c.decls, fmt.Sprintf("(define-fun %s () %s %s)", n, t.Sort, t.S))
+	if t.Sort == SBool {
+		c.boolDefs[n] = t.S
+	}
 	return Term{S: n, Sort: t.Sort}
+}
+
+// reachDisjuncts expands a path condition into the disjuncts it is (transitively) defined as,
+// up to max leaves: proving a goal under each disjunct proves it under the condition.
+func (c *Ctx) reachDisjuncts(cond Term, max int) []string {
+	leaves := []string{cond.S}
+	for changed := true; changed; {
+		changed = false
+		var next []string
+		for i, l := range leaves {
+			body := l
+			if b, ok := c.boolDefs[l]; ok {
+				body = b
+			}
+			parts := topOr(body)
+			if len(parts) > 1 && len(next)+len(parts)+len(leaves)-i-1 <= max {
+				next = append(next, parts...)
+				changed = true
+			} else {
+				next = append(next, l)
+			}
+		}
+		leaves = next
+	}
+	return leaves
+}
+
+// topOr splits "(or a b c)" into its arguments.
+func topOr(s string) []string {
+	if !strings.HasPrefix(s, "(or ") {
+		return nil
+	}
+	body := s[4 : len(s)-1]
+	var out []string
+	depth, start := 0, 0
+	for i := 0; i < len(body); i++ {
+		switch body[i] {
+		case '(':
+			depth++
+		case ')':
+			depth--
+		case ' ':
+			if depth == 0 {
+				if i > start {
+					out = append(out, body[start:i])
+				}
+				start = i + 1
+			}
+		}
+	}
+	if start < len(body) {
+		out = append(out, body[start:])
+	}
+	return out
 }
 
 // Fresh declares an unconstrained constant.
@@ -197,6 +260,27 @@ func (c *Ctx) UF(name string, ret string, args ...Term) Term {
 	return sexp(ret, name, args...)
 }
 
+// trigName: the instantiation-trigger predicate of a sort. Kept quantifiers of specifications carry
+// the alternative pattern (gtrig x); asserting (gtrig t) for the index terms of the code and for
+// skolem constants makes the solver instantiate them there, independently of how it normalises the
+// arithmetic inside the heap-read patterns.
+func trigName(sortName string) string {
+	return "gtrig_" + sanitize(strings.NewReplacer("(", "", ")", "", " ", "_").Replace(sortName))
+}
+
+func (c *Ctx) addTrig(t Term) {
+	if c.inQuant > 0 || t.Sort == SBool || t.Sort == "" {
+		return
+	}
+	key := t.Sort + "|" + t.S
+	if c.trigSeen[key] {
+		return
+	}
+	c.trigSeen[key] = true
+	g := c.UF(trigName(t.Sort), SBool, t)
+	c.assumes = append(c.assumes, Assume{declPos: len(c.decls), why: "instantiation trigger", t: g})
+}
+
 func (c *Ctx) Raw(decl string) { c.decls = append(c.decls, decl) }
 
 func (c *Ctx) Assume(cond, t Term, why string) {
@@ -217,7 +301,7 @@ func (c *Ctx) siteName(kind string) string {
 
 func (c *Ctx) Oblige(kind, label string, cond, goal Term, pos token.Position, note string) *Obligation {
 	g := Implies(cond, goal)
-	o := &Obligation{Name: c.fn + "#" + kind + "." + label + c.caseSuffix, Kind: kind, Func: c.fn, Property: c.property,
+	o := &Obligation{Name: c.fn + "#" + kind + "." + label + c.caseSuffix, Kind: kind, Func: c.fn, Property: c.property, Reach: cond,
 		Goal: g, declPos: len(c.decls), asmPos: len(c.assumes), allocs: c.nextObj, quantHeap: c.needQuantHeap, Pos: pos, Note: note, Ctx: c}
 	c.obls = append(c.obls, o)
 	return o
@@ -272,6 +356,9 @@ func (o *Obligation) QueryF(withModel bool, dropQuant bool) string {
 		if a.optAx && o.noHeapAx && o.noOptAx {
 			continue
 		}
+		if a.frameAx && !o.quantHeap {
+			continue
+		}
 		if a.heapAx && (o.allocs == 0 || !o.quantHeap || o.noHeapAx) {
 			continue
 		}
@@ -287,6 +374,9 @@ func (o *Obligation) QueryF(withModel bool, dropQuant bool) string {
 		if h.Verdict == "discharged" && !o.noHelpers {
 			sb.WriteString("(assert " + h.Goal.S + ") ; lemma " + h.Name + "\n")
 		}
+	}
+	if o.splitOn != "" {
+		sb.WriteString("(assert " + o.splitOn + ")\n")
 	}
 	if o.WantSat {
 		sb.WriteString("(assert " + o.Goal.S + ")\n")
